@@ -139,6 +139,13 @@ def subject_check(parts, tpos, ti, ts):
     m2 = _parse(notags, ts)
     if _val(m2.resolution) != _val(m.resolution) or m2.subject != m.subject or list(m2.labels) != []:
         return False, "removing the hashtags changed the result: %r -> (%s, %r) vs %r -> (%s, %r)" % (withtime, m.resolution, m.subject, notags, m2.resolution, m2.subject)
+    # a hashtag inside a multi-token time expression changes nothing either
+    if " " in TIME10[ti]:
+        inside = TIME10[ti].replace(" ", " #zz ", 1)
+        m3 = _parse(inside, ts)
+        m4 = _parse(TIME10[ti], ts)
+        if _val(m3.resolution) != _val(m4.resolution) or list(m3.labels) != ["zz"] or m3.subject != m4.subject:
+            return False, "a hashtag inside the time expression changed the result: %r -> (%s, %r, %r) vs %r -> (%s, %r)" % (inside, m3.resolution, m3.subject, m3.labels, TIME10[ti], m4.resolution, m4.subject)
     return True, ""
 
 
